@@ -825,9 +825,9 @@ class FnEmitter:
         def after(nounwind=False):
             if ins.op == 'invoke':
                 if nounwind: s.w(s.edge(blk.name, ins.x['normal']))
-                else: s.w('if (vf_exc_type) %s else %s' % (s.edge(blk.name, ins.x['unwind']), s.edge(blk.name, ins.x['normal'])))
+                else: s.w('if (vf_exc_type) %s else { VF_NOEXC(); %s }' % (s.edge(blk.name, ins.x['unwind']), s.edge(blk.name, ins.x['normal'])))
             elif not nounwind:
-                s.w('if (vf_exc_type) %s' % s.retdummy())
+                s.w('if (vf_exc_type) %s' % s.retdummy()); s.w('VF_NOEXC();')
         if name and name.startswith('llvm.'):
             s.intrinsic(name, ins, R, loc); after(True); return
         if name == '__cxa_throw' or (name in STD_THROW):
@@ -885,6 +885,32 @@ class FnEmitter:
         if base in ('lifetime', 'dbg', 'experimental', 'assume', 'invariant', 'donothing', 'prefetch', 'stackrestore', 'var', 'annotation') :
             return
         if base == 'stacksave': s.w('%s = (char*)0;' % R); return
+        if base in ('memcpy', 'memmove', 'memset') and E.o.inline_mem and getattr(a[2], 'k', None) == 'int' and 0 <= a[2].v <= int(E.o.inline_mem) \
+                and (base != 'memset' or getattr(a[1], 'k', None) == 'int'):
+            # --inline-mem N: constant-size block operations as word moves.  CBMC's library models of memcpy/memset go through array_replace on the
+            # whole destination object, which makes the propositional encoding of struct-heavy code explode.  8-byte words move as pointer-typed
+            # values so that pointers keep their object identity (integers/doubles survive the reinterpretation bit for bit).
+            n = a[2].v; d = s.tmp('char*'); s.w('%s = %s;' % (d, v(a[0])))
+            chunks = []; off = 0
+            while n - off >= 8: chunks.append((off, 8)); off += 8
+            for sz in (4, 2, 1):
+                while n - off >= sz: chunks.append((off, sz)); off += sz
+            CT = {8: 'char*', 4: 'u32', 2: 'u16', 1: 'u8'}
+            if base == 'memset':
+                b = a[1].v & 255
+                for (o_, sz) in chunks:
+                    val = int.from_bytes(bytes([b]) * sz, 'little')
+                    s.w('*(%s*)(%s + %d) = (%s)UINT64_C(%d);' % (CT[sz], d, o_, CT[sz], val))
+                return
+            src = s.tmp('char*'); s.w('%s = %s;' % (src, v(a[1])))
+            if base == 'memmove':      # overlap-safe: all loads first
+                ts = []
+                for (o_, sz) in chunks:
+                    t_ = s.tmp(CT[sz]); ts.append(t_); s.w('%s = *(%s*)(%s + %d);' % (t_, CT[sz], src, o_))
+                for t_, (o_, sz) in zip(ts, chunks): s.w('*(%s*)(%s + %d) = %s;' % (CT[sz], d, o_, t_))
+            else:
+                for (o_, sz) in chunks: s.w('*(%s*)(%s + %d) = *(%s*)(%s + %d);' % (CT[sz], d, o_, CT[sz], src, o_))
+            return
         if base in ('memcpy', 'memmove'):
             s.w('%s(%s, %s, (size_t)%s);' % (base, v(a[0]), v(a[1]), v(a[2]))); return
         if base == 'memset':
@@ -960,7 +986,7 @@ def main():
     ap.add_argument('input'); ap.add_argument('-o', dest='out', required=True); ap.add_argument('-H', dest='hdr')
     ap.add_argument('--report'); ap.add_argument('--extern', action='append', default=[])
     ap.add_argument('--keep'); ap.add_argument('--yield', dest='yield_re'); ap.add_argument('--redirect', action='append', default=[])
-    ap.add_argument('--redirect-re', dest='redirect_re', action='append', default=[]); ap.add_argument('--no-nsw', dest='no_nsw'); ap.add_argument('--icall-hook', dest='icall_hook')
+    ap.add_argument('--redirect-re', dest='redirect_re', action='append', default=[]); ap.add_argument('--inline-mem', dest='inline_mem', default=None); ap.add_argument('--no-nsw', dest='no_nsw'); ap.add_argument('--icall-hook', dest='icall_hook')
     o = ap.parse_args()
     o.extern = set(x for e in o.extern for x in e.split(',') if x)
     o.hname = (o.hdr or re.sub(r'\.c$', '.h', o.out)).split('/')[-1]
